@@ -159,6 +159,8 @@ extern "C" void var_2(const double* i, double* o){ vm::var_ops<2>(i,o);}
 extern "C" void any_so3(const double* i, double* o){ vm::any_ops<SO3>(i,o);}
 extern "C" void any_se2(const double* i, double* o){ vm::any_ops<SE2>(i,o);}
 extern "C" void any_v2(const double* i, double* o){ vm::any_ops<V2>(i,o);}
+extern "C" void any_dyn_vx(const double* i, double* o){ vm::any_dyn_vx(i,o);}
+extern "C" void any_dyn_vec(const double* i, double* o){ vm::any_dyn_vec(i,o);}
 '''
 
 
@@ -274,6 +276,24 @@ def job_vector_mixed(tier):
         return [T.Const(6)] + [T.Add(m[k], a[k]) for k in range(6)] + [T.Sub(m[k], n[k]) for k in range(6)]
     check.check_wrapper(res, h, "vec_mixed", m + n + a, 13, oracle, "vector/mixed-dynamic-sizes(3,1,2)", tol=1e-12, pid=PID,
                         sampler=lambda k: [random.Random(k * 7 + i).uniform(-2, 2) for i in range(18)], nvalidate=4)
+    return res
+
+
+def job_any_dynamic(tier):
+    """AnyManifold around values whose dof is a run-time quantity: dof(any) is the tangent length rplus accepts and rminus returns"""
+    T.reset_terms()
+    res = check.Result()
+    h = check.Harness("man_containers", CONT_TU)
+    v, w, a = G.syms("v", 3), G.syms("w", 3), G.syms("a", 3)
+
+    def oracle(ins, outs=None):
+        return [T.Const(3), T.Const(3)] + [T.Add(v[k], a[k]) for k in range(3)] + [T.Const(3)] + [T.Sub(v[k], w[k]) for k in range(3)]
+    check.check_wrapper(res, h, "any_dyn_vx", v + w + a, 9, oracle, "any/VectorXd(3)", tol=1e-12, pid=PID,
+                        sampler=lambda k: [random.Random(k * 11 + i).uniform(-2, 2) for i in range(9)], nvalidate=4)
+    g = G.BASIC["SO3"]
+    m = G.syms("m", 8)
+    check.check_wrapper(res, h, "any_dyn_vec", m, 3, lambda ins, outs=None: [T.Const(6), T.Const(6), T.Const(6)], "any/std::vector<SO3>(2)", tol=1e-12, pid=PID,
+                        sampler=lambda k: g.random_element(random.Random(k), 1.0) + g.random_element(random.Random(k + 50), 1.0), nvalidate=4)
     return res
 
 
@@ -436,6 +456,7 @@ def main(tier):
                               ("vec_vx_2", "VX", 2, 3), ("vec_vx_0", "VX", 0, 3)]:
         jobs.append((job_vector, (fn, gname, N, esz, tier)))
     jobs.append((job_vector_mixed, (tier,)))
+    jobs.append((job_any_dynamic, (tier,)))
     for alt in range(3):
         jobs.append((job_variant, (alt, tier)))
     for fn, gname in [("any_so3", "SO3"), ("any_se2", "SE2"), ("any_v2", "T2")]:
